@@ -2,39 +2,114 @@
 
 package sflow
 
-import "bytes"
-
-func verifArbReader() (*bytes.Reader, []byte, int) {
-	n := verifNondetInt()
-	verifAssume(verifAll(n >= 0, n < 1<<31))
-	buf := verifNondetBytes(n)
-	pos := verifNondetInt()
-	verifAssume(verifAll(pos >= 0, pos <= n))
-	r := bytes.NewReader(buf)
-	r.Seek(int64(pos), 0)
-	return r, buf, pos
-}
+// C01 layer 1 / C07 per-record: every record decoder of sFlow, run on a reader at an
+// arbitrary position of an arbitrary buffer (no length bound). No panic site may be
+// reachable; when enough octets remain the fields must equal the wire words (sFlow v5
+// structures, DESIGN.md A.3); the reader must advance by exactly the record's size.
 
 func VerifSFExtRouter() {
-	r, _, _ := verifArbReader()
+	r, buf, pos := verifArbReader()
 	l := verifNondetU32()
-	decodeExtRouterData(r, l)
+	verifAllocBound(4*(len(buf)-pos) + 2048) // C02: memory in proportion to the octets received
+	er, err := decodeExtRouterData(r, l)
+	// well-formed: address type word + 4- or 16-octet address + two masks
+	if verifAll(l >= 16, l <= 28, len(buf)-pos >= int(l)) {
+		verifAssert(err == nil, "ExtRouter: enough octets: must decode")
+		al := int(l) - 12
+		verifAssert(len(er.NextHop) == al, "ExtRouter: NextHop length")
+		j := verifNondetInt()
+		verifAssume(verifAll(j >= 0, j < al))
+		verifAssert(verifAt(er.NextHop, j) == verifAt(buf, pos+4+j), "ExtRouter: NextHop octets")
+		verifAssert(er.SrcMask == be32(buf, pos+int(l)-8), "ExtRouter: SrcMask")
+		verifAssert(er.DstMask == be32(buf, pos+int(l)-4), "ExtRouter: DstMask")
+		verifAssert(verifPos(r, len(buf)) == pos+int(l), "ExtRouter: consumes exactly the record length")
+	}
 	verifReach("end")
-}
-
-func be32(b []byte, o int) uint32 {
-	return uint32(verifAt(b, o))<<24 | uint32(verifAt(b, o+1))<<16 | uint32(verifAt(b, o+2))<<8 | uint32(verifAt(b, o+3))
 }
 
 func VerifSFExtSwitch() {
 	r, buf, pos := verifArbReader()
 	es, err := decodeExtSwitchData(r)
 	if len(buf)-pos >= 16 {
-		verifAssert(err == nil, "16 octets available: must decode")
-		verifAssert(es.SrcVlan == be32(buf, pos), "SrcVlan")
-		verifAssert(es.SrcPriority == be32(buf, pos+4), "SrcPriority")
-		verifAssert(es.DstVlan == be32(buf, pos+8), "DstVlan")
-		verifAssert(es.DstPriority == be32(buf, pos+12), "DstPriority")
+		verifAssert(err == nil, "ExtSwitch: 16 octets available: must decode")
+		verifAssert(es.SrcVlan == be32(buf, pos), "ExtSwitch: SrcVlan")
+		verifAssert(es.SrcPriority == be32(buf, pos+4), "ExtSwitch: SrcPriority")
+		verifAssert(es.DstVlan == be32(buf, pos+8), "ExtSwitch: DstVlan")
+		verifAssert(es.DstPriority == be32(buf, pos+12), "ExtSwitch: DstPriority")
+		verifAssert(verifPos(r, len(buf)) == pos+16, "ExtSwitch: consumes 16 octets")
+	} else {
+		verifAssert(err != nil, "ExtSwitch: short input must fail")
+	}
+	verifReach("end")
+}
+
+func VerifSFFlowSampleHdr() {
+	r, buf, pos := verifArbReader()
+	fs := new(FlowSample)
+	err := fs.unmarshal(r)
+	if len(buf)-pos >= 32 {
+		verifAssert(err == nil, "FlowSample header: 32 octets available: must decode")
+		verifAssert(fs.SequenceNo == be32(buf, pos), "FlowSample: SequenceNo")
+		verifAssert(fs.SourceID == verifAt(buf, pos+4), "FlowSample: SourceID (type octet)")
+		verifAssert(fs.SamplingRate == be32(buf, pos+8), "FlowSample: SamplingRate")
+		verifAssert(fs.SamplePool == be32(buf, pos+12), "FlowSample: SamplePool")
+		verifAssert(fs.Drops == be32(buf, pos+16), "FlowSample: Drops")
+		verifAssert(fs.Input == be32(buf, pos+20), "FlowSample: Input")
+		verifAssert(fs.Output == be32(buf, pos+24), "FlowSample: Output")
+		verifAssert(fs.RecordsNo == be32(buf, pos+28), "FlowSample: RecordsNo")
+		verifAssert(verifPos(r, len(buf)) == pos+32, "FlowSample header: consumes 32 octets")
+	} else {
+		verifAssert(err != nil, "FlowSample header: short input must fail")
+	}
+	verifReach("end")
+}
+
+func VerifSFCounterSampleHdr() {
+	r, buf, pos := verifArbReader()
+	cs := new(CounterSample)
+	err := cs.unmarshal(r)
+	if len(buf)-pos >= 12 {
+		verifAssert(err == nil, "CounterSample header: 12 octets available: must decode")
+		verifAssert(cs.SequenceNo == be32(buf, pos), "CounterSample: SequenceNo")
+		verifAssert(cs.SourceIDType == verifAt(buf, pos+4), "CounterSample: SourceIDType")
+		verifAssert(cs.SourceIDIdx == be32(buf, pos+4)&0xffffff, "CounterSample: SourceIDIdx")
+		verifAssert(cs.RecordsNo == be32(buf, pos+8), "CounterSample: RecordsNo")
+		verifAssert(verifPos(r, len(buf)) == pos+12, "CounterSample header: consumes 12 octets")
+	} else {
+		verifAssert(err != nil, "CounterSample header: short input must fail")
+	}
+	verifReach("end")
+}
+
+// SampledHeader: protocol, frame length, stripped, header length n (<= 1500), n octets,
+// XDR padding to a multiple of four.
+func VerifSFSampledHeader() {
+	r, buf, pos := verifArbReader()
+	sh := new(SampledHeader)
+	verifAllocBound(4*(len(buf)-pos) + 2048) // C02: memory in proportion to the octets received
+	err := sh.unmarshal(r)
+	avail := len(buf) - pos
+	if avail >= 16 {
+		hl := be32(buf, pos+12)
+		pad := (4 - hl%4) % 4
+		if hl <= 1500 {
+			if avail >= 16+int(hl+pad) {
+				verifAssert(err == nil, "SampledHeader: enough octets: must decode")
+				verifAssert(sh.Protocol == be32(buf, pos), "SampledHeader: Protocol")
+				verifAssert(sh.FrameLength == be32(buf, pos+4), "SampledHeader: FrameLength")
+				verifAssert(sh.Stripped == be32(buf, pos+8), "SampledHeader: Stripped")
+				verifAssert(sh.HeaderLength == hl, "SampledHeader: HeaderLength")
+				verifAssert(len(sh.Header) == int(hl), "SampledHeader: len(Header)")
+				j := verifNondetInt()
+				verifAssume(verifAll(j >= 0, j < int(hl)))
+				verifAssert(verifAt(sh.Header, j) == verifAt(buf, pos+16+j), "SampledHeader: header octets")
+				verifAssert(verifPos(r, len(buf)) == pos+16+int(hl+pad), "SampledHeader: consumes header plus XDR padding")
+			}
+		} else {
+			verifAssert(err != nil, "SampledHeader: length above 1500 must be rejected")
+		}
+	} else {
+		verifAssert(err != nil, "SampledHeader: short input must fail")
 	}
 	verifReach("end")
 }
